@@ -307,7 +307,7 @@ func runSeq(c SeqCase, ev *pbt.Ev) error {
 }
 
 func TestProp_Seq(t *testing.T) {
-	pbt.Run(t, pbt.Options{Prop: "C10", Name: "Seq", Quick: 120000, Thorough: 4000000,
+	pbt.Run(t, pbt.Options{Prop: "C10", Name: "Seq", Quick: 120000, Thorough: 3600000,
 		Rule: "rapid: cache kind {ttl,lru(cap 1-3)} + 1-40 ops of add/get/remove/release(any earlier handle, evict flag, repeats allowed) over 3 keys, exact reference model " +
 			"(membership, LRU recency, holder counts, finalised set) compared after every step and after drain; non-trivial = re-add while an older value of the key is held, " +
 			"or evicting release with another holder / of a stale value, or capacity eviction of a held value",
